@@ -307,7 +307,7 @@ PROPS = {
         "assumptions": ["'terminated' is witnessed by the end of the actor's task (EvTaskEnd), which is also when the notifier fires or is dropped"],
     },
     "C03": {
-        "families": [("lifecycle", 700, 20000), ("restart", 300, 8000), ("streams", 300, 8000), ("faults", 300, 8000)],
+        "families": [("lifecycle", 700, 20000), ("restart", 300, 8000), ("streams", 300, 8000), ("faults", 300, 8000), ("timeouts", 300, 6000)],
         "monitors": ["C03"],
         "theorems": ["C03_lifecycle"],
         "nontrivial": nt_c03,
@@ -437,7 +437,7 @@ MANIFEST_TEXT = {
     },
     "C18": {
         "text": "Theorems C18_entry_survives / C18_rt_independent (Coq, by computation over two tables regenerated from the source on every run: what each of the 12 spawn entry points does with the task handle, "
-                "what dropping the handle does on each runtime's spawner): every entry point yields a surviving actor on every runtime. The tables' claim about the runtimes is validated on every run by executing 75 "
+                "what dropping the handle does on each runtime's spawner): every entry point yields a surviving actor on every runtime. The tables' claim about the runtimes is validated on every run by executing 76 "
                 "timing-independent scenarios on tokio, async-std and smol and demanding identical outcome lines (and equality with the recorded outcomes). The theorems are thin because the truth lives in external runtimes; this is stated in the evidence.",
         "note": COMMON_NOTE,
         "technique": "Rocq/Coq proof over tables translated from the source (translator re-run every check) + cross-runtime differential execution",
